@@ -61,6 +61,7 @@ type Script struct {
 	FetchV   int         `json:"fetchVersion"`
 	MaxBytes int         `json:"maxBytes"`
 	Steps    []Step      `json:"steps"`
+	Chunk    int         `json:"chunk,omitempty"` // > 0: every fetch response arrives in pieces of this many bytes
 }
 
 const topic = "t"
@@ -74,10 +75,17 @@ func keyOf(off int64) []byte {
 	if off%5 == 4 {
 		return nil
 	}
+	if off%11 == 3 {
+		return []byte(fmt.Sprintf("k%d-%s", off, strings.Repeat("K", 80)))
+	}
 	return []byte(fmt.Sprintf("k%d", off))
 }
 func valueOf(off int64) []byte {
-	return []byte(fmt.Sprintf("value-%d-%s", off, strings.Repeat("x", int(off%9))))
+	n := int(off % 9)
+	if off%4 == 1 {
+		n = 70 + int(off%60) // lengths that need a two-byte varint
+	}
+	return []byte(fmt.Sprintf("value-%d-%s", off, strings.Repeat("x", n)))
 }
 func headersOf(off int64) []krec.Hdr {
 	if off%3 == 0 {
@@ -398,6 +406,16 @@ func (r *run) intercept(req *fakekafka.Request) *fakekafka.Reply {
 		return &full
 	}
 	rep.OnSend = emit
+	if c := r.sc.Chunk; c > 0 {
+		n := (8 + len(rep.Body) + c - 1) / c
+		if n > 400 {
+			n = 400
+		}
+		rep.Chunks = make([]int, n)
+		for i := range rep.Chunks {
+			rep.Chunks[i] = c
+		}
+	}
 	return &rep
 }
 
